@@ -400,9 +400,16 @@ var verifEdgeKeys = []verifEdge{{0, "la2"}, {4999, "5if"}, {5000, "i37"}, {5460,
 // a node picked by the random source (so connections opened for probing under an old role exist too).
 // anyKey=1: keys are two arbitrary bytes (slot = real CRC of arbitrary data); anyKey=0: the key is chosen
 // among keys hashing to the first and last slot of every range of every topology.
-func HarnessC04Topo(h, pw, ntopo, probes, anyKey int) {
+func HarnessC04Topo(h, pw, ntopo, probes, anyKey int) { verifC04Topo(h, pw, ntopo, probes, anyKey, 1) }
+
+// HarnessC04TopoConns: the same with `conns` connections per backend node (redis.server_connections): the
+// warm-up sends one request per connection, so all connections of the node are open under the old role.
+func HarnessC04TopoConns(h, ntopo, conns int) { verifC04Topo(h, 0, ntopo, 0, 0, conns) }
+
+func verifC04Topo(h, pw, ntopo, probes, anyKey, conns int) {
 	var sopts []Option
 	o := core.VerifDefaultOptions()
+	o.RedisServerConnections = conns
 	if pw == 1 {
 		sopts = append(sopts, WithRedisPassword("p"))
 		o.RedisPasswd = "p"
@@ -424,6 +431,8 @@ func HarnessC04Topo(h, pw, ntopo, probes, anyKey int) {
 	answered := map[*core.VerifConn]int{}
 	nsent := 0
 
+	repeat := false
+	lastName, lastKey := "", []byte(nil)
 	request := func(t core.VerifTopo, warm bool) {
 		names := []string{"get", "set", "hscan"}
 		edges := verifEdgeKeys
@@ -432,9 +441,11 @@ func HarnessC04Topo(h, pw, ntopo, probes, anyKey int) {
 			names = names[:2]
 			edges = []verifEdge{verifEdgeKeys[0], verifEdgeKeys[4], verifEdgeKeys[9]}
 		}
-		name := names[verifrt.Choice("cmd", len(names))]
+		var name string
 		var key []byte
-		if anyKey == 1 {
+		if repeat {
+			name, key = lastName, lastKey
+		} else if name = names[verifrt.Choice("cmd", len(names))]; anyKey == 1 {
 			key = verifrt.Bytes("key", 2)
 		} else {
 			// a key for each edge of every range of every topology: first and last slot of the table,
@@ -443,6 +454,7 @@ func HarnessC04Topo(h, pw, ntopo, probes, anyKey int) {
 			key = []byte(edge.key)
 			verifrt.Assert(core.VerifSpecSlotOf(key) == edge.slot, "harness_edge_key_has_its_slot")
 		}
+		lastName, lastKey = name, key
 		args := [][]byte{[]byte(name), key}
 		if name != "get" {
 			args = append(args, []byte("0"))
@@ -512,12 +524,28 @@ func HarnessC04Topo(h, pw, ntopo, probes, anyKey int) {
 			i = 1
 		}
 		if isSlave {
-			verifrt.Assert(len(cmds) > i+1 && len(cmds[i]) == 1 && string(cmds[i][0]) == "READONLY", "READONLY_before_the_first_request_on_a_replica_connection")
+			// the connection was switched to read-only mode at some point before this request (when it was
+			// opened, or - a design that keeps connections across a role change - when the role changed)
+			ro := false
+			for _, cmd := range cmds[i : len(cmds)-1] {
+				if len(cmd) == 1 && string(cmd[0]) == "READONLY" {
+					ro = true
+				}
+				if len(cmd) == 1 && string(cmd[0]) == "READWRITE" {
+					ro = false
+				}
+			}
+			verifrt.Assert(ro, "READONLY_before_the_request_on_a_replica_connection")
 		}
 	}
 
 	if verifrt.Choice("warm_up_request", 2) == 1 {
 		request(cur, true)
+		for i := 1; i < conns; i++ {
+			repeat = true
+			request(cur, true) // the same request again: the pool hands out (dials) its next connection
+		}
+		repeat = false
 	}
 	for step := 0; step < h; step++ {
 		cur = core.VerifTopos[1+verifrt.Choice("topology", ntopo-1)]
@@ -531,11 +559,17 @@ func HarnessC04Topo(h, pw, ntopo, probes, anyKey int) {
 			seen[s] = len(w.Sent(s)) // a handshake of a connection opened by the ticker itself
 		}
 		request(cur, false)
+		for i := 1; i < conns; i++ {
+			repeat = true
+			request(cur, false) // again: the pool's next connection to that node
+		}
+		repeat = false
 	}
 	verifrt.Cover("end", true)
 }
 
 func init() {
+	verifrt.Register("HarnessC04TopoConns", func(p []int64) { HarnessC04TopoConns(int(p[0]), int(p[1]), int(p[2])) })
 	verifrt.Register("HarnessC04Topo", func(p []int64) { HarnessC04Topo(int(p[0]), int(p[1]), int(p[2]), int(p[3]), int(p[4])) })
 	verifrt.Register("HarnessC04Seq", func(p []int64) { HarnessC04Seq(int(p[0]), int(p[1])) })
 	verifrt.Register("HarnessC04", func(p []int64) { HarnessC04(int(p[0]), int(p[1]), int(p[2])) })
